@@ -39,12 +39,11 @@ linkage_t* @{virt:xfer_first}(struct S_ZTSN3ipr12Basic_binaryIRKNS_7LinkageERKNS
 { for (int i = 1; i < 3; i++) if ((void*)self == (void*)XF[i]) return &LKS[xf_l[i]]; __CPROVER_assert(0, "first() of an unknown transfer"); return 0; }
 cc_t* @{virt:xfer_second}(struct S_ZTSN3ipr12Basic_binaryIRKNS_7LinkageERKNS_18Calling_conventionEEE* self)
 { for (int i = 1; i < 3; i++) if ((void*)self == (void*)XF[i]) return &CCS[xf_c[i]]; __CPROVER_assert(0, "second() of an unknown transfer"); return 0; }
-int @{sv_compare}(void* self, sv_t other) { return sv_cmp3(*(sv_t*)self, other); }
 static void transfer_pools(void)
 {
-  STR[0] = 0;
-  for (int k = 0; k < 56; k++) { sv_t t = WORDS[k].f_str.f_txt; if (t.f__M_len == 3 && t.f__M_str[0] == 'C' && t.f__M_str[1] == '+' && t.f__M_str[2] == '+') STR[0] = &WORDS[k].f_str.__b0.__b0.__b0; }
-  __CPROVER_assert(STR[0] != 0, "the reserved-word table has the word C++");
+  /* the word C++ at the index clang's evaluation of the table gives (constant offset: cheap dereferencing) */
+  { sv_t t = WORDS[@{word:C++}].f_str.f_txt; __CPROVER_assert(t.f__M_len == 3 && t.f__M_str[0] == 'C' && t.f__M_str[1] == '+' && t.f__M_str[2] == '+', "the reserved-word table has the word C++ at the index read from it"); }
+  STR[0] = &WORDS[@{word:C++}].f_str.__b0.__b0.__b0;
   STR[1] = @{empty_string}();
   STR[2] = NEWZ(string_t); STR[3] = NEWZ(string_t);
   for (int i = 0; i < 4; i++) LOGO[i] = NEWZ(logo_t);
